@@ -23,6 +23,7 @@ import MW.Lemmas.KsRefineOps2
 import MW.Lemmas.KsRefineSecrecy
 import MW.Lemmas.KsRefineToy
 import MW.Lemmas.KsRefineBound
+import MW.Lemmas.KsRefineFree
 import MW.Props.C05
 namespace MW.Props.C05Abs
 open MW MW.Model.Secrets MW.Model.KsCodec MW.Model.KsBytes MW.KsRefine
@@ -218,11 +219,42 @@ theorem no_clear_secret_bytes_reach (C : BCrypto) (L : Laws C) (ρ : PubVal) (hi
   obtain ⟨t, h⟩ := MW.KsRefine.reach_representable C L ρ ops hops
   exact ⟨t, h, fun p kb v hv s => no_secret_bytes L hind ops h hv s⟩
 
+/-- the exported keystore at byte level: the three secret-bearing fields of the file are the hex of frames -/
+theorem export_fields_framed (C : BCrypto) (L : Laws C) (ρ : PubVal) (ops : List Op) (t : Tree) (w : String) (r : WRec)
+    (purpose coin : Nat) (h : Rep C ρ (C05.reach ops).db t)
+    (ta te ti : String) (tEnt tPriv tCent tPub tCpub : Term)
+    (hacct : AMap.get (C05.reach ops).db (w, .account) = some (.pub ta)) (hex : AMap.get (C05.reach ops).db (w, .exNum) = some (.pub te))
+    (hin : AMap.get (C05.reach ops).db (w, .inNum) = some (.pub ti))
+    (hent : AMap.get (C05.reach ops).db (w, .ent) = some tEnt) (hpriv : AMap.get (C05.reach ops).db (w, .mpriv) = some tPriv)
+    (hcent : AMap.get (C05.reach ops).db (w, .cent) = some tCent) (hpub : AMap.get (C05.reach ops).db (w, .mpub) = some tPub)
+    (hcpub : AMap.get (C05.reach ops).db (w, .cpub) = some tCpub)
+    (fa : ρ (w, .account) = u32Bytes 1) (fe : ρ (w, .exNum) = u32Bytes r.nExt)
+    (fi : ρ (w, .inNum) = u32Bytes r.nInt) (he : r.nExt < 4294967296) (hi : r.nInt < 4294967296) :
+    ∃ k f1 f2 f3, exportB t (C.walletId w) purpose coin = .ok k ∧
+      k.entropyEnc = hexEnc f1 ∧ k.privParams = hexEnc f2 ∧ k.cryptoKeyEntropyEnc = hexEnc f3 ∧
+      Frame C (ρ (w, .ent)) f1 ∧ Frame C (ρ (w, .mpriv)) f2 ∧ Frame C (ρ (w, .cent)) f3 :=
+  MW.KsRefine.export_fields_framed C L ρ ops t w r purpose coin h ta te ti tEnt tPriv tCent tPub tCpub hacct hex hin hent hpriv hcent
+    hpub hcpub fa fe fi he hi
+
+/-- OPACITY IS A PROPERTY OF THE BYTES: under the free-algebra assumption at byte level (`Free C pv`: sealing and key
+    derivation injective, images of the primitives pairwise disjoint and different from the public value) any pair-free
+    term whose concretisation equals the stored bytes of an opaque pair-free term is itself opaque -/
+theorem any_reading_opaque (C : BCrypto) (pv : Bytes) (F : Free C pv) (t u : Term) (ht : noPair t = true) (hu : noPair u = true)
+    (hp : pubOk t = true) (h : bytesOf C pv u = bytesOf C pv t) : pubOk u = true :=
+  MW.KsRefine.any_reading_opaque C pv F t u ht hu hp h
+
 -- ------------------------------------------------------------------ non-vacuity
 
 /-- the assumptions are satisfiable together -/
 example : Laws Toy.toy := Toy.toy_laws
 example : Indep Toy.toy Toy.ρ1 := Toy.toy_indep Toy.ρ1 Toy.ρ1_clean
+
+/-- the free-algebra assumption is satisfiable (tagged, self-delimiting toy encodings), together with `Laws` -/
+example : Free ToyF.toyF [9] := ToyF.toyF_free [9] rfl
+example : Laws ToyF.toyF := ToyF.toyF_laws
+/-- hypotheses of `any_reading_opaque` on a concrete box -/
+example : noPair (.enc (.secret (.key 1)) (.secret (.entropy "e"))) = true ∧
+    pubOk (.enc (.secret (.key 1)) (.secret (.entropy "e"))) = true := by decide
 
 /-- create wallet end to end on the toy instance (hypotheses of `create_refines` / `sym_write_refines_bytes` are met; the
     tree is not empty: 15 values are written) -/
